@@ -168,6 +168,16 @@ def judge_family(ctx, t, src, tgt, opts, where):
             ctx.err("pwa_affine_in_triangle", e)
             if e > 1e-7 * scale:
                 ctx.fail("pwa_is_not_affine_inside_a_source_triangle", cls=cls, mech=where, err=e)
+            # ... also for a second, minutely different set of interior points asked for right afterwards (the map is
+            # affine, not piecewise constant: each point moves by its triangle's linear part times the nudge)
+            from vf import refmap
+            p2 = p + 2e-6 * np.abs(p) * np.sign(rng.normal(size=p.shape))
+            r2 = refmap.reference_apply(t, p2)
+            if r2 is not None and r2[1].all():
+                e = tx.maxdiff(t.apply(p2.copy()), r2[0])
+                ctx.err("pwa_affine_in_triangle_nudged", e)
+                if e > 1e-9 * scale:
+                    ctx.fail("pwa_is_not_affine_inside_a_source_triangle", cls=cls, mech=where + ":nudged_points", err=e)
         except Exception as ex:
             ctx.fail("pwa_rejects_interior_points", cls=cls, mech=where + ":" + type(ex).__name__)
         # continuity across shared edges: points just either side of an interior edge map close together
